@@ -6,7 +6,8 @@ literals that get embedded verbatim in the op list (replay never re-generates).
 import copy
 
 P1, P2, PR = "Player 1", "Player 2", "Probabilistic"
-ACTIONS = ["a", "b", "c", "d", "alfa", "beta", "gamma", "Left", "Right", "Down", "acci\u00f3n", "Gr\u00f6\u00dfe"]
+ACTIONS = ["a", "b", "c", "d", "alfa", "beta", "gamma", "Left", "Right", "Down", "acci\u00f3n", "Gr\u00f6\u00dfe",
+           "risk_50%", "%s", "100%%", "{x}", "a b", "it's"]
 
 
 def rand_game(rng, nmin=3, nmax=14, p_back=0.3):
